@@ -35,6 +35,8 @@ def expected_plan(c):
         ridx = list(range(len(xr)))
         judged = len(fixed) == len(xr)
     else:
+        if len(c["fixed_values"] if mode == "values" else c["fixed_indices"]) > len(x):
+            return None, None, False       # more fixed points than samples (duplicates count): rejected with ValueError by design
         if mode == "values":
             vals = sorted(set(c["fixed_values"]))
             if any(v not in x for v in vals):
